@@ -164,6 +164,7 @@ def _entry_points(t):
         "delete_file": lambda p: st.delete_file(p),
         "makedirs": lambda p: st.makedirs(p),
         "create_lock": lambda p: _lock_once(st.create_lock(p)),
+        "write_data_file": lambda p: dfm.write_data_file(p, tablekit.rows(1, start=4242), tablekit.schema()),
     }
     return eps, mutating
 
@@ -242,6 +243,8 @@ def _s3_keys(ctx, rep, model_ok=False):
         for combo in itertools.product(comps, repeat=n):
             rel = "/".join(combo)
             paths += [rel, "/" + rel]
+    paths += ["s3://bkt/wh/customers/x", "s3a://bkt/wh/customers/data/x", "s3n://bkt/other/data/x", "s3://bkt/x", "s3://elsewhere/wh/orders/data/x",
+              "s3://bkt/wh/orders/../customers/x", "https://example.invalid/bkt/wh/customers/x", "bkt/wh/customers/x", "wh/customers/x"]
     paths = list(dict.fromkeys(paths))
     if model_ok:
         from ..util import dec
@@ -250,7 +253,10 @@ def _s3_keys(ctx, rep, model_ok=False):
             reqs = [f"path.s3key {enc(pref)} {enc(p_)}" for p_ in paths]
             for p_, m_ in zip(paths, driver.ask(reqs)):
                 rep.corr_cases += 1
-                impl_ = be_._get_s3_key(p_)
+                try:
+                    impl_ = be_._get_s3_key(p_)
+                except Exception as e_:      # noqa: BLE001
+                    impl_ = f"raise {type(e_).__name__}"
                 if dec(m_) != impl_:
                     rep.diverge("path.s3key (_get_s3_key)", {"prefix": pref, "path": p_}, dec(m_), impl_)
     seen = []
@@ -433,6 +439,25 @@ def _stateful(ctx, rep, base):
             if out_touch or after != before or (isinstance(r, bytes) and b"SENTINEL" in r) or (name == "exists" and r is True) or (name == "get_size" and outcome == "ok"):
                 rep.violate(f"C17:{'write' if name in ('write_file', 'delete_file') else 'read'}-outside-root:{name}",
                             f"{name}({p!r}) through a backend that had used this path while it was inside the root; it now leads out: {outcome}, touched {out_touch[:2]}", case)
+    # ---- (1b) a bare backend whose root holds nothing but the files being deleted: removing the last one must leave the root's
+    # ancestors (and siblings) alone
+    bare = os.path.join(S, "bare", "wh", "tbl")
+    os.makedirs(os.path.join(bare, "data", "p=1"))
+    for fn_ in ("data/p=1/a.bin", "data/p=1/b.bin"):
+        open(os.path.join(bare, fn_), "wb").write(b"x")
+    bb = LocalStorageBackend(bare)
+    for fn_ in ("data/p=1/a.bin", "data/p=1/b.bin"):
+        try:
+            bb.delete_file(fn_)
+        except Exception:       # noqa: BLE001
+            pass
+        rep.evaluations += 1
+        rep.nontrivial(["c17-bare-delete", fn_])
+        gone = [d_ for d_ in (os.path.join(S, "bare", "wh"), os.path.join(S, "bare")) if not os.path.isdir(d_)]
+        if gone:
+            rep.violate("C17:write-outside-root:delete_file", f"delete_file({fn_!r}) on a root holding nothing else removed {[os.path.relpath(g_, S) for g_ in gone]} "
+                        f"(directories OUTSIDE the table root)", {"kind": "delete-last-entry", "path": fn_})
+            break
     # ---- (2)
     sch = t.file_manager.data_file_manager.create_arrow_schema(tablekit.schema())
     outp = os.path.join(S, "outside", "evil.parquet")
